@@ -22,6 +22,33 @@ func evalSafe(e hclsyntax.Expression, ctx *hcl.EvalContext) (v cty.Value, d hcl.
 	return
 }
 
+// computedAttrNames: some object attribute name of the result may be computed from a value
+// (object constructor key that is not a literal/keyword, or an object for-expression).
+func computedAttrNames(e hclsyntax.Expression) bool {
+	found := false
+	hclsyntax.VisitAll(e, func(n hclsyntax.Node) hcl.Diagnostics {
+		switch x := n.(type) {
+		case *hclsyntax.ForExpr:
+			if x.KeyExpr != nil {
+				found = true
+			}
+		case *hclsyntax.ObjectConsKeyExpr:
+			if !x.ForceNonLiteral && hcl.ExprAsKeyword(x.Wrapped) != "" {
+				return nil
+			}
+			if t, ok := x.Wrapped.(*hclsyntax.TemplateExpr); ok && t.IsStringLiteral() {
+				return nil
+			}
+			if _, ok := x.Wrapped.(*hclsyntax.LiteralValueExpr); ok {
+				return nil
+			}
+			found = true
+		}
+		return nil
+	})
+	return found
+}
+
 var corpus = []string{
 	`1 + 2 * 3`, `"a${1}b"`, `true ? 1 : "a"`, `[for v in [1,2,3] : v * 2 if v != 2]`,
 	`{for k, v in {a = 1, b = 2} : v => k...}`, `[1,2,3][*]`, `null`, `!true || false && true`,
@@ -95,6 +122,18 @@ func run(cfg *hv.RunCfg) error {
 			rep.Fail(hv.Failure{Kind: "panic", Detail: fmt.Sprint(p), Input: j.text})
 			continue
 		}
+		// evaluation is an observation: a second evaluation of the SAME expression object in the same
+		// scope, and the expression itself (its AST dump), must be unchanged (no state kept in the tree)
+		astBefore := hv.DumpExprS(expr)
+		if v2, diags2, p2 := evalSafe(expr, j.ctx); p2 != nil || hv.DumpVal(v2) != hv.DumpVal(v) || hv.CoqDiagSummaries(diags2) != hv.CoqDiagSummaries(diags) {
+			rep.Fail(hv.Failure{Kind: "evaluation-not-repeatable", Detail: fmt.Sprintf("first %s %s, second %s %s (panic %v)", hv.DumpVal(v), hv.CoqDiagSummaries(diags), hv.DumpVal(v2), hv.CoqDiagSummaries(diags2), p2), Input: j.text})
+			continue
+		}
+		_ = hclsyntax.Variables(expr)
+		if hv.DumpExprS(expr) != astBefore {
+			rep.Fail(hv.Failure{Kind: "evaluation-mutates-expression", Detail: "the AST dump changed under Value/Variables", Input: j.text})
+			continue
+		}
 		info := &hv.ValInfo{}
 		ctxs := hv.CoqCtx(j.ctx, info)
 		es := hv.CoqExpr(expr, info)
@@ -104,6 +143,12 @@ func run(cfg *hv.RunCfg) error {
 		if info.Inexact || risk == 1 {
 			mode = 1
 			rep.Hist("mode:type-only(inexact number)")
+		}
+		if mode == 1 && computedAttrNames(expr) {
+			// type-only comparison is meaningless when the digits of an inexact number can
+			// become an object attribute NAME (the name is part of the type): `{(1/3) = x}`
+			mode = 2
+			rep.Hist("mode:skipped(inexact number may become an attribute name)")
 		}
 		if risk == 2 {
 			mode = 2
